@@ -53,7 +53,7 @@ ASSUMPTIONS = [
     "the first repetition of a variation always runs (the stop rule is "
     "consulted only once there is a result to look at)",
 ]
-QUICK_BUDGET_S = 80
+QUICK_BUDGET_S = 300
 
 NAME_POOL = ["b", "a", "Zeta", "c1", "SNR", "M", "alpha"]
 
